@@ -2,14 +2,16 @@
 
 package vrt
 
+import "unsafe"
+
 const RaceEnabled = false
 
-func raceOff()                  {}
-func raceOn()                   {}
-func raceErrors() int           { return 0 }
-func raceJoin()                 {}
-func raceGo(f func())           { go f() }
-func RaceRelease(p any)         {}
-func RaceAcquire(p any)         {}
-func raceReleaseAddr(p uintptr) {}
-func raceAcquireAddr(p uintptr) {}
+func raceOff()                         {}
+func raceOn()                          {}
+func raceErrors() int                  { return 0 }
+func raceJoin()                        {}
+func raceGo(f func())                  { go f() }
+func RaceRelease(p any)                {}
+func RaceAcquire(p any)                {}
+func raceReleaseAddr(p unsafe.Pointer) {}
+func raceAcquireAddr(p unsafe.Pointer) {}
